@@ -430,7 +430,9 @@ def check_datadecl(run, filesets, info, tag):
             # the hypothesis of C02_alias_resolution_exact / C06_alias_resolution_order (DataDeclComplete.wf): after the
             # declaration sort the type names are unique and no simple / enumeration / structure type is declared after
             # it was used as a base
-            names = [f.split(",")[1] for f in facts]
+            # (declarations the transformation does not enter -- strings, subranges, arrays -- may repeat a name: it never
+            # looks at them; the duplicate is diagnosed by a later stage)
+            names = [f.split(",")[1] for f in facts if not (f.startswith("DD,") and f.split(",")[2] == "none")]
             later = set()
             unsorted = None
             for f in reversed(facts):
